@@ -32,6 +32,11 @@ func EncodeStyled(ext string, docs []tv.T, style string) ([]byte, error) {
 			}
 			QuoteMergeStrings(n)
 			switch style {
+			case "docstart":
+				// the standard explicit document start marker, also before the first document
+				if i == 0 {
+					buf.WriteString("---\n")
+				}
 			case "flow":
 				setFlow(n)
 			case "anchors":
@@ -50,7 +55,11 @@ func EncodeStyled(ext string, docs []tv.T, style string) ([]byte, error) {
 		var buf bytes.Buffer
 		for i, d := range docs {
 			if i > 0 {
-				buf.WriteString("---\n")
+				if style == "plus" {
+					buf.WriteString("+++\n") // the other separator bkl accepts in TOML streams
+				} else {
+					buf.WriteString("---\n")
+				}
 			}
 			m, ok := tv.ToGo(d).(map[string]any)
 			if !ok || hasNull(m) {
